@@ -14,7 +14,11 @@ def loop_fns(a):
     """deterministic loop functions from small integer parameters"""
     limit, step, mul = a["limit"], a["step"], a["mul"]
     cond = lambda s: s < limit  # noqa: E731
-    it = (lambda s: s * 2 + step) if mul else (lambda s: s + step)  # noqa: E731
+
+    def it(s):
+        if not cond(s):
+            raise LookupError("iterate called on state %r, which the loop never reaches" % (s,))  # partial, like a table lookup
+        return s * 2 + step if mul else s + step
     return cond, it
 
 
@@ -84,7 +88,11 @@ class Prop:
         if f == "generate_rel":
             cond, it = loop_fns(a)
             ds = a["delays"]
-            tmap = (lambda s: timedelta(seconds=ds[s % len(ds)])) if a["td"] else (lambda s: float(ds[s % len(ds)]) if ds[s % len(ds)] else 0)
+            def tmap(s):
+                if not cond(s):
+                    raise LookupError("time mapper called on state %r, which the loop never emits" % (s,))  # a delay table with one entry per emitted state
+                d = ds[s % len(ds)]
+                return timedelta(seconds=d) if a["td"] else (float(d) if d else 0)
             return rx.generate_with_relative_time(a["init"], cond, it, tmap)
         if f == "timer":
             return rx.timer(float(a["d"]))
